@@ -3,10 +3,376 @@ From Chihaya Require Import Model.HttpWrite Proofs.BencodeP.
 From Coq Require Import ZifyBool ZifyNat.
 Open Scope Z_scope.
 
-(* every failure that is not the client's fault produces the same body: no
-   detail, nothing echoed *)
+(* ------------------------------------------------------------ values as finite maps *)
+
+Lemma bequiv_int z y : bequiv (BInt z) y = true -> y = BInt z.
+Proof. destruct y; cbn [bequiv]; try discriminate. intros H. apply Z.eqb_eq in H. congruence. Qed.
+
+Lemma bequiv_str s y : bequiv (BStr s) y = true -> y = BStr s.
+Proof. destruct y; cbn [bequiv]; try discriminate. intros H. apply bytes_eqb_eq in H. congruence. Qed.
+
+Lemma bequiv_list l y :
+  bequiv (BList l) y = true -> exists l', y = BList l' /\ Forall2 (fun a b => bequiv a b = true) l l'.
+Proof.
+  destruct y as [| |l'|]; cbn [bequiv]; try discriminate. intros H. exists l'. split; [reflexivity|].
+  revert l' H. induction l as [|x l IH]; intros [|y l'] H; try discriminate; [constructor|].
+  apply andb_true_iff in H as [H1 H2]. constructor; [exact H1|apply IH, H2].
+Qed.
+
+Lemma bequiv_dict d y :
+  bequiv (BDict d) y = true ->
+  exists d', y = BDict d' /\ length d = length d' /\
+             forall k x, In (k, x) d -> exists x', lookup k d' = Some x' /\ bequiv x x' = true.
+Proof.
+  destruct y as [| | |d']; cbn [bequiv]; try discriminate. intros H.
+  apply andb_true_iff in H as [H1 H2]. exists d'. split; [reflexivity|]. split; [apply Nat.eqb_eq, H1|].
+  clear H1. induction d as [|[k0 x0] d IH]; intros k x Hin; [destruct Hin|].
+  apply andb_true_iff in H2 as [Ha Hb]. destruct Hin as [E|Hin].
+  - inversion E; subst. destruct (lookup k d') as [x'|]; [|discriminate]. exists x'. auto.
+  - apply IH; assumption.
+Qed.
+
+Lemma lookup_In k d x : lookup k d = Some x -> In (k, x) d.
+Proof.
+  induction d as [|[k' v] d IH]; cbn [lookup]; [discriminate|].
+  destruct (bytes_eqb k k') eqn:E.
+  - apply bytes_eqb_eq in E. subst. intros H. inversion H; subst. left. reflexivity.
+  - intros H. right. apply IH, H.
+Qed.
+
+(* a key absent from d is absent from every reordering of d *)
+Lemma same_dict_absent d d' k :
+  bequiv (BDict d') (BDict d) = true -> lookup k d = None -> lookup k d' = None.
+Proof.
+  intros H Hn. destruct (lookup k d') as [y|] eqn:E; [|reflexivity].
+  apply lookup_In in E. apply bequiv_dict in H as (d0 & E0 & _ & Hl). inversion E0; subst d0.
+  destruct (Hl k y E) as (x' & Hx & _). congruence.
+Qed.
+
+Lemma same_value_dict d v' :
+  same_value (BDict d) v' = true ->
+  exists d', v' = BDict d' /\ canonb v' = true /\
+    (forall k x, In (k, x) d -> exists x', lookup k d' = Some x' /\ bequiv x x' = true) /\
+    (forall k, lookup k d = None -> lookup k d' = None).
+Proof.
+  unfold same_value. intros H. apply andb_true_iff in H as [H Hc]. apply andb_true_iff in H as [H1 H2].
+  destruct (bequiv_dict d v' H1) as (d' & E & _ & Hl). subst v'. exists d'.
+  split; [reflexivity|]. split; [exact Hc|]. split; [exact Hl|].
+  intros k Hk. eapply same_dict_absent; eauto.
+Qed.
+
+(* ------------------------------------------------------------ single value *)
+
+(* every body the writer may emit is one bencoded value and nothing else *)
+Lemma single_value v v' fuel :
+  same_value v v' = true -> (length (bencode v') <= fuel)%nat ->
+  bdecode fuel (bencode v') = Ok v' [].
+Proof.
+  intros H Hf. unfold same_value in H. apply andb_true_iff in H as [_ Hc].
+  rewrite <- (app_nil_r (bencode v')) at 1. apply bdecode_bencode; assumption.
+Qed.
+
+(* ------------------------------------------------------------ errors *)
+
 Definition is_client (e : err) : bool := match e with ClientErr _ => true | InternalErr => false end.
 
+(* every failure that is not the client's fault produces the same body: no
+   detail, nothing echoed *)
 Lemma error_body_internal_constant e e' :
   is_client e = false -> is_client e' = false -> http_error_body e = http_error_body e'.
 Proof. destruct e, e'; cbn; intros; try discriminate; reflexivity. Qed.
+
+Lemma error_body_decodes e v' fuel :
+  same_value (error_value e) v' = true -> (length (bencode v') <= fuel)%nat ->
+  bdecode fuel (bencode v') = Ok v' [] /\ get k_failure v' = Some (BStr (error_msg e)).
+Proof.
+  intros H Hf. split; [eapply single_value; eauto|].
+  unfold error_value in H. apply same_value_dict in H as (d' & E & _ & Hl & _). subst v'.
+  destruct (Hl k_failure (BStr (error_msg e)) (or_introl eq_refl)) as (x' & Hx & Hb).
+  apply bequiv_str in Hb. subst x'. exact Hx.
+Qed.
+
+Lemma error_body_client msg v' fuel :
+  same_value (error_value (ClientErr msg)) v' = true -> (length (bencode v') <= fuel)%nat ->
+  bdecode fuel (bencode v') = Ok v' [] /\ get k_failure v' = Some (BStr msg).
+Proof. apply (error_body_decodes (ClientErr msg)). Qed.
+
+Lemma error_body_internal v' fuel :
+  same_value (error_value InternalErr) v' = true -> (length (bencode v') <= fuel)%nat ->
+  bdecode fuel (bencode v') = Ok v' [] /\ get k_failure v' = Some (BStr internal_msg).
+Proof. apply (error_body_decodes InternalErr). Qed.
+
+(* ------------------------------------------------------------ announce *)
+
+Ltac int_field Hl k x :=
+  let x' := fresh "x'" in let Hx := fresh "Hx" in let Hb := fresh "Hb" in
+  destruct (Hl k x) as (x' & Hx & Hb);
+  [ apply in_or_app; left; cbn [base_entries In]; auto 10
+  | apply bequiv_int in Hb; subst x'; exact Hx ].
+
+Lemma base_fields r rest d' :
+  (forall k x, In (k, x) (base_entries r ++ rest) -> exists x', lookup k d' = Some x' /\ bequiv x x' = true) ->
+  lookup k_complete d' = Some (BInt (a_complete r)) /\
+  lookup k_incomplete d' = Some (BInt (a_incomplete r)) /\
+  lookup k_interval d' = Some (BInt (dur_secs (a_interval r))) /\
+  lookup k_min_interval d' = Some (BInt (dur_secs (a_min_interval r))).
+Proof.
+  intros Hl. repeat split.
+  - int_field Hl k_complete (BInt (a_complete r)).
+  - int_field Hl k_incomplete (BInt (a_incomplete r)).
+  - int_field Hl k_interval (BInt (dur_secs (a_interval r))).
+  - int_field Hl k_min_interval (BInt (dur_secs (a_min_interval r))).
+Qed.
+
+Definition opt_str (s : bytes) : option bval := match s with [] => None | _ :: _ => Some (BStr s) end.
+
+Lemma announce_body_decodes_compact r v v' fuel :
+  a_compact r = true -> announce_value r = Some v ->
+  same_value v v' = true -> (length (bencode v') <= fuel)%nat ->
+  bdecode fuel (bencode v') = Ok v' [] /\
+  get k_complete v' = Some (BInt (a_complete r)) /\
+  get k_incomplete v' = Some (BInt (a_incomplete r)) /\
+  get k_interval v' = Some (BInt (dur_secs (a_interval r))) /\
+  get k_min_interval v' = Some (BInt (dur_secs (a_min_interval r))) /\
+  exists c4 c6, compact_all compact4 (a_v4 r) = Some c4 /\ compact_all compact6 (a_v6 r) = Some c6 /\
+                get k_peers v' = opt_str c4 /\ get k_peers6 v' = opt_str c6.
+Proof.
+  intros Hc Hv Hs Hf. split; [eapply single_value; eauto|].
+  unfold announce_value in Hv. rewrite Hc in Hv.
+  destruct (compact_all compact4 (a_v4 r)) as [c4|]; [|discriminate].
+  destruct (compact_all compact6 (a_v6 r)) as [c6|]; [|discriminate].
+  assert (E : v = BDict (base_entries r ++ opt_entry k_peers c4 ++ opt_entry k_peers6 c6)) by congruence.
+  subst v. clear Hv.
+  apply same_value_dict in Hs as (d' & E & _ & Hl & Hn). subst v'. cbn [get].
+  destruct (base_fields r _ d' Hl) as (F1 & F2 & F3 & F4).
+  repeat (split; [assumption|]).
+  exists c4, c6. repeat (split; [reflexivity|]).
+  split.
+  - destruct c4 as [|b c4]; cbn [opt_str].
+    + apply Hn. destruct c6; vm_compute; reflexivity.
+    + destruct (Hl k_peers (BStr (b :: c4))) as (x' & Hx & Hb).
+      { apply in_or_app; right. apply in_or_app; left. left. reflexivity. }
+      apply bequiv_str in Hb. subst x'. exact Hx.
+  - destruct c6 as [|b c6]; cbn [opt_str].
+    + apply Hn. destruct c4; vm_compute; reflexivity.
+    + destruct (Hl k_peers6 (BStr (b :: c6))) as (x' & Hx & Hb).
+      { apply in_or_app; right. apply in_or_app; right. left. reflexivity. }
+      apply bequiv_str in Hb. subst x'. exact Hx.
+Qed.
+
+(* what a client reads in one peer dictionary *)
+Definition peer_read (p : peer) (pd : bval) : Prop :=
+  get k_peer_id pd = Some (BStr (p_id p)) /\
+  get k_ip pd = Some (BStr (ip_string (p_ip p))) /\
+  get k_port pd = Some (BInt (p_port p)).
+
+Lemma peer_dict_read p pd : bequiv (peer_dict p) pd = true -> peer_read p pd.
+Proof.
+  intros H. unfold peer_dict in H. apply bequiv_dict in H as (d' & E & _ & Hl). subst pd.
+  unfold peer_read. cbn [get]. repeat split.
+  - destruct (Hl k_peer_id (BStr (p_id p))) as (x' & Hx & Hb); [cbn [In]; auto 10|].
+    apply bequiv_str in Hb. subst x'. exact Hx.
+  - destruct (Hl k_ip (BStr (ip_string (p_ip p)))) as (x' & Hx & Hb); [cbn [In]; auto 10|].
+    apply bequiv_str in Hb. subst x'. exact Hx.
+  - destruct (Hl k_port (BInt (p_port p))) as (x' & Hx & Hb); [cbn [In]; auto 10|].
+    apply bequiv_int in Hb. subst x'. exact Hx.
+Qed.
+
+Lemma announce_body_decodes_dict r v v' fuel :
+  a_compact r = false -> announce_value r = Some v ->
+  same_value v v' = true -> (length (bencode v') <= fuel)%nat ->
+  bdecode fuel (bencode v') = Ok v' [] /\
+  get k_complete v' = Some (BInt (a_complete r)) /\
+  get k_incomplete v' = Some (BInt (a_incomplete r)) /\
+  get k_interval v' = Some (BInt (dur_secs (a_interval r))) /\
+  get k_min_interval v' = Some (BInt (dur_secs (a_min_interval r))) /\
+  get k_peers6 v' = None /\
+  exists pl, get k_peers v' = Some (BList pl) /\ Forall2 peer_read (a_v4 r ++ a_v6 r) pl.
+Proof.
+  intros Hc Hv Hs Hf. split; [eapply single_value; eauto|].
+  unfold announce_value in Hv. rewrite Hc in Hv.
+  assert (E : v = BDict (base_entries r ++ [(k_peers, BList (map peer_dict (a_v4 r ++ a_v6 r)))])) by congruence.
+  subst v. clear Hv.
+  apply same_value_dict in Hs as (d' & E & _ & Hl & Hn). subst v'. cbn [get].
+  destruct (base_fields r _ d' Hl) as (F1 & F2 & F3 & F4).
+  repeat (split; [assumption|]).
+  split; [apply Hn; vm_compute; reflexivity|].
+  destruct (Hl k_peers (BList (map peer_dict (a_v4 r ++ a_v6 r)))) as (x' & Hx & Hb).
+  { apply in_or_app; right. left. reflexivity. }
+  apply bequiv_list in Hb as (pl & E & F2'). subst x'. exists pl. split; [exact Hx|].
+  clear - F2'. revert pl F2'. induction (a_v4 r ++ a_v6 r) as [|p ps IH]; intros pl F; inversion F; subst; constructor.
+  - apply peer_dict_read. assumption.
+  - apply IH. assumption.
+Qed.
+
+(* ------------------------------------------------------------ scrape *)
+
+Lemma lookup_dict_put k k' v d :
+  lookup k (dict_put k' v d) = if bytes_eqb k k' then Some v else lookup k d.
+Proof.
+  induction d as [|[k0 v0] d IH]; cbn [dict_put lookup]; [reflexivity|].
+  destruct (bytes_eqb k' k0) eqn:E0; cbn [lookup].
+  - apply bytes_eqb_eq in E0. subst k0. destruct (bytes_eqb k k'); reflexivity.
+  - rewrite IH. destruct (bytes_eqb k k0) eqn:E1; [|reflexivity].
+    destruct (bytes_eqb k k') eqn:E2; [|reflexivity].
+    apply bytes_eqb_eq in E1, E2. subst. rewrite bytes_eqb_refl in E0. discriminate.
+Qed.
+
+(* the last file listed for an infohash *)
+Definition last_file (ih : bytes) (fs : list sfile) : option sfile :=
+  fold_left (fun o f => if bytes_eqb ih (f_ih f) then Some f else o) fs None.
+
+Lemma lookup_files_gen ih fs : forall d o,
+  lookup ih d = option_map file_dict o ->
+  lookup ih (fold_left (fun d f => dict_put (f_ih f) (file_dict f) d) fs d) =
+  option_map file_dict (fold_left (fun o f => if bytes_eqb ih (f_ih f) then Some f else o) fs o).
+Proof.
+  induction fs as [|f fs IH]; intros d o H; cbn [fold_left]; [exact H|].
+  apply IH. rewrite lookup_dict_put. destruct (bytes_eqb ih (f_ih f)); [reflexivity|exact H].
+Qed.
+
+Lemma lookup_files ih fs : lookup ih (files_dict fs) = option_map file_dict (last_file ih fs).
+Proof. apply lookup_files_gen. reflexivity. Qed.
+
+Lemma file_dict_read f pd :
+  bequiv (file_dict f) pd = true ->
+  get k_complete pd = Some (BInt (f_complete f)) /\ get k_incomplete pd = Some (BInt (f_incomplete f)).
+Proof.
+  intros H. unfold file_dict in H. apply bequiv_dict in H as (d' & E & _ & Hl). subst pd. cbn [get]. split.
+  - destruct (Hl k_complete (BInt (f_complete f))) as (x' & Hx & Hb); [cbn [In]; auto 10|].
+    apply bequiv_int in Hb. subst x'. exact Hx.
+  - destruct (Hl k_incomplete (BInt (f_incomplete f))) as (x' & Hx & Hb); [cbn [In]; auto 10|].
+    apply bequiv_int in Hb. subst x'. exact Hx.
+Qed.
+
+(* the "files" dictionary is keyed by the raw infohash; for a repeated
+   infohash the last entry wins; nothing else is in it *)
+Lemma scrape_body_decodes fs v' fuel :
+  same_value (scrape_value fs) v' = true -> (length (bencode v') <= fuel)%nat ->
+  bdecode fuel (bencode v') = Ok v' [] /\
+  exists fd, get k_files v' = Some (BDict fd) /\
+    forall ih, match last_file ih fs with
+               | Some f => exists pd, lookup ih fd = Some pd /\
+                                      get k_complete pd = Some (BInt (f_complete f)) /\
+                                      get k_incomplete pd = Some (BInt (f_incomplete f))
+               | None => lookup ih fd = None
+               end.
+Proof.
+  intros Hs Hf. split; [eapply single_value; eauto|].
+  pose proof Hs as Hs'. unfold same_value in Hs'. apply andb_true_iff in Hs' as [Hs' _].
+  apply andb_true_iff in Hs' as [_ Hrev].
+  unfold scrape_value in Hs. apply same_value_dict in Hs as (d' & E & _ & Hl & _). subst v'. cbn [get].
+  destruct (Hl k_files (BDict (files_dict fs)) (or_introl eq_refl)) as (x' & Hx & Hb).
+  destruct (bequiv_dict _ _ Hb) as (fd & E & _ & Hfl). subst x'. exists fd. split; [exact Hx|].
+  (* the reverse direction, for absent infohashes *)
+  apply lookup_In in Hx. unfold scrape_value in Hrev.
+  apply bequiv_dict in Hrev as (d0 & E0 & _ & Hr). inversion E0; subst d0. clear E0.
+  destruct (Hr k_files (BDict fd) Hx) as (y & Hy & Hby).
+  cbn [lookup] in Hy. rewrite bytes_eqb_refl in Hy. inversion Hy; subst y. clear Hy.
+  intros ih. pose proof (lookup_files ih fs) as L. destruct (last_file ih fs) as [f|]; cbn [option_map] in L.
+  - apply lookup_In in L. destruct (Hfl ih (file_dict f) L) as (pd & Hpd & Hbp).
+    exists pd. split; [exact Hpd|]. apply file_dict_read, Hbp.
+  - eapply same_dict_absent; eauto.
+Qed.
+
+(* ------------------------------------------------------------ compact peer strings *)
+
+Lemma firstn_len_app {A} (a X : list A) : firstn (length a) (a ++ X) = a.
+Proof. induction a as [|x a IH]; cbn; [destruct X; reflexivity|congruence]. Qed.
+Lemma skipn_len_app {A} (a X : list A) : skipn (length a) (a ++ X) = X.
+Proof. induction a as [|x a IH]; cbn; auto. Qed.
+
+Lemma to4_length ip ip4 : to4 ip = Some ip4 -> length ip4 = 4%nat.
+Proof.
+  unfold to4. destruct (Nat.eqb_spec (length ip) 4).
+  - intros H; inversion H; subst; assumption.
+  - destruct (Nat.eqb_spec (length ip) 16); cbn [andb]; [|discriminate].
+    destruct (bytes_eqb (firstn 12 ip) v4_in_v6_prefix); [|discriminate].
+    assert (L : length (skipn 12 ip) = 4%nat) by (rewrite skipn_length; lia).
+    intros H. injection H as <-. exact L.
+Qed.
+Lemma to16_length ip ip6 : to16 ip = Some ip6 -> length ip6 = 16%nat.
+Proof.
+  unfold to16. destruct (Nat.eqb_spec (length ip) 4).
+  - assert (L : length (v4_in_v6_prefix ++ ip) = 16%nat) by (rewrite app_length; cbn [length v4_in_v6_prefix]; lia).
+    intros H. injection H as <-. exact L.
+  - destruct (Nat.eqb_spec (length ip) 16); [|discriminate]. intros H; inversion H; subst; assumption.
+Qed.
+
+Lemma decode_compact_entry n a port rest fuel :
+  length a = n -> 0 <= port < 65536 ->
+  decode_compact n (S fuel) (a ++ be_enc 2 port ++ rest) = (a, port) :: decode_compact n fuel rest.
+Proof.
+  intros Ha Hp. subst n. cbn [decode_compact].
+  destruct (a ++ be_enc 2 port ++ rest) as [|b0 s0] eqn:E.
+  { apply (f_equal (@length Z)) in E. rewrite !app_length, be_enc_length in E. cbn [length] in E. lia. }
+  rewrite <- E. clear E.
+  rewrite firstn_len_app, skipn_len_app.
+  replace (firstn 2 (be_enc 2 port ++ rest)) with (be_enc 2 port)
+    by (rewrite <- (be_enc_length 2 port) at 2; symmetry; apply firstn_len_app).
+  rewrite be_dec_enc. change (256 ^ Z.of_nat 2) with 65536. rewrite Z.mod_small by lia.
+  f_equal. f_equal. rewrite app_assoc.
+  replace (length a + 2)%nat with (length (a ++ be_enc 2 port)) by (rewrite app_length, be_enc_length; reflexivity).
+  apply skipn_len_app.
+Qed.
+
+Lemma compact_decodes (cf : peer -> option bytes) (ep : peer -> bytes * Z) n :
+  (forall p c, peer_wf p = true -> cf p = Some c -> exists a, c = a ++ be_enc 2 (p_port p) /\ length a = n /\ ep p = (a, p_port p)) ->
+  forall ps c, forallb peer_wf ps = true -> compact_all cf ps = Some c ->
+  (length ps <= length c)%nat /\
+  forall fuel, (length ps <= fuel)%nat -> decode_compact n fuel c = map ep ps.
+Proof.
+  intros Hcf. induction ps as [|p ps IH]; intros c Hw Hc.
+  - cbn in Hc. inversion Hc; subst. split; [cbn; lia|]. intros [|f] _; reflexivity.
+  - cbn [compact_all] in Hc. cbn [forallb] in Hw. apply andb_true_iff in Hw as [Hp Hw].
+    destruct (cf p) as [cp|] eqn:E1; [|discriminate].
+    destruct (compact_all cf ps) as [c'|] eqn:E2; [|discriminate]. inversion Hc; subst c. clear Hc.
+    destruct (Hcf p cp Hp E1) as (a & Ea & La & Eep). subst cp.
+    destruct (IH c' Hw eq_refl) as [I1 I2].
+    split; [rewrite !app_length, be_enc_length; cbn [length]; lia|].
+    intros [|fuel] Hfu; [cbn [length] in Hfu; lia|].
+    rewrite <- app_assoc. rewrite decode_compact_entry.
+    + cbn [map]. rewrite Eep. f_equal. apply I2. cbn [length] in Hfu. lia.
+    + exact La.
+    + unfold peer_wf in Hp. lia.
+Qed.
+
+(* a client that cuts "peers" into 6-byte and "peers6" into 18-byte entries
+   gets exactly the peers' addresses and ports, in order *)
+Lemma compact4_decodes ps c fuel :
+  forallb peer_wf ps = true -> compact_all compact4 ps = Some c -> (length c <= fuel)%nat ->
+  decode_compact 4 fuel c = map endpoint4 ps.
+Proof.
+  intros Hw Hc Hf.
+  destruct (compact_decodes compact4 endpoint4 4) with (ps := ps) (c := c) as [L D]; auto.
+  - intros p cp _ H. unfold compact4 in H. unfold endpoint4. destruct (to4 (p_ip p)) as [ip4|] eqn:E; [|discriminate].
+    inversion H; subst. exists ip4. split; [reflexivity|]. split; [eapply to4_length; eauto|reflexivity].
+  - apply D. lia.
+Qed.
+Lemma compact6_decodes ps c fuel :
+  forallb peer_wf ps = true -> compact_all compact6 ps = Some c -> (length c <= fuel)%nat ->
+  decode_compact 16 fuel c = map endpoint6 ps.
+Proof.
+  intros Hw Hc Hf.
+  destruct (compact_decodes compact6 endpoint6 16) with (ps := ps) (c := c) as [L D]; auto.
+  - intros p cp _ H. unfold compact6 in H. unfold endpoint6. destruct (to16 (p_ip p)) as [ip6|] eqn:E; [|discriminate].
+    inversion H; subst. exists ip6. split; [reflexivity|]. split; [eapply to16_length; eauto|reflexivity].
+  - apply D. lia.
+Qed.
+
+(* ------------------------------------------------------------ the hypotheses are satisfiable *)
+
+Example announce_example :
+  let p4 := {| p_id := repeat 255 20; p_ip := [10; 0; 0; 1]; p_port := 6881 |} in
+  let p6 := {| p_id := repeat 0 20; p_ip := [32; 1; 13; 184; 0; 0; 0; 0; 0; 0; 0; 0; 0; 0; 0; 1]; p_port := 80 |} in
+  let r c := {| a_compact := c; a_complete := 2 ^ 32 - 1; a_incomplete := 0; a_interval := 1800 * 10 ^ 9 + 5;
+                a_min_interval := - 1500000000; a_v4 := [p4]; a_v6 := [p6] |} in
+  resp_wf (r true) = true /\
+  (exists v, announce_value (r true) = Some v /\ same_value v v = true) /\
+  (exists v, announce_value (r false) = Some v /\ same_value v v = true /\
+             get k_peers v = Some (BList [peer_dict p4; peer_dict p6]) /\
+             get k_ip (peer_dict p6) = Some (BStr (s2b "2001:db8::1"))) /\
+  same_value (scrape_value [{| f_ih := repeat 7 20; f_complete := 1; f_incomplete := 2 |}])
+             (scrape_value [{| f_ih := repeat 7 20; f_complete := 1; f_incomplete := 2 |}]) = true /\
+  same_value (error_value InternalErr) (error_value InternalErr) = true.
+Proof. vm_compute. repeat split; eexists; repeat split. Qed.
